@@ -33,7 +33,11 @@ RULE = ('ensure_shapes: exhaustive, every shape of rank <= 4 with dims in {1,2,3
         '(quick dims {1,2,%d}, thorough {1,2,3,%d}) x dim in {None,0,1,2} for ensure_equal_dims and as two-array calls of the three '
         'normalisers, plus random triples; entry_points (instance-only): every public numeric entry point x accepted layouts x rejected '
         'layouts x shortened arguments x read-only arrays x option dictionaries passed twice, in a forked child with a memory limit '
-        'and a per-call alarm. Non-trivial: a shape of rank >= 2 / a pair that differs / an entry point with at least one alternative '
+        'and a per-call alarm; the table also holds, for every entry point that takes option dictionaries, a variant in which every '
+        'optional key of the live signature is present (sift_args naming max_imfs, nested pad dictionaries), and for every documented '
+        'input-normalisation branch an input that reaches it (unwrapped phase > 2 pi through get_cycle_vector / Cycles / phase_align / '
+        'get_cycle_stat / bin_by_phase, 3-d second-layer input of the transforms, integer and float32 arrays). '
+        'Non-trivial: a shape of rank >= 2 / a pair that differs / an entry point with at least one alternative '
         'layout or option dictionary.' % (N, N, N))
 
 FN = {'vec': 'ensure_vector', '1d': 'ensure_1d_with_singleton', '2d': 'ensure_2d'}
